@@ -1,9 +1,237 @@
-//! C15: cost bounded by input plus output (filled in below).
+//! C15: parsing cost is bounded by input size plus output size. Measured through the heap
+//! seam (counting allocator, thread-local) around each parse_bytes call:
+//!   A = bytes requested, N = allocation calls, L = bytes still live after the call (the
+//!   result plus cache growth), `largest` = biggest single request.
+//! With B = |buffer| and T = wire size of the templates cached before/after the call:
+//!   (1) A' <= 1024*B + 8*L + 256 KiB     A' = A minus the listed per-packet remainder copies
+//!   (2) L  <= 1024*(B + T) + 64 KiB      (not judged while a zero-length-field template is cached)
+//!   (3) largest <= 64*B + 2*L + 4*T + 80 KiB
+//!   (4) scaling: the same shape at sizes n, 2n, 4n costs at most 6x (bytes and calls)
+//! The constants were calibrated on the repaired tree: legitimate decoding costs up to ~720
+//! heap bytes per input byte (one B-tree leaf per one-byte field) and L/B up to ~690.
+
+use crate::alloc;
 use crate::exec::*;
 use crate::trace::Trace;
+use netflow_parser::NetflowPacket;
+
+/// bytes that the per-packet copy of the unparsed remainder costs (listed finding): exactly
+/// the sum of the suffix lengths after each returned packet
+fn remainder_copies(buf: &[u8], r: &[NetflowPacket]) -> u64 {
+    let mut pos = 0usize;
+    let mut sum = 0u64;
+    for el in r {
+        if let Some(l) = wire_len(el) {
+            pos += l;
+            if pos > buf.len() {
+                break;
+            }
+            sum += (buf.len() - pos) as u64;
+        }
+    }
+    sum
+}
+
+fn be16(b: &[u8], o: usize) -> usize {
+    usize::from(b[o]) << 8 | usize::from(b[o + 1])
+}
+
+/// Lenient structural scan: how many count fields in this buffer announce more elements than
+/// the bytes present can hold (each such site makes nom's `count` pre-allocate up to 64 KiB:
+/// listed finding).
+pub fn overannouncing_sites(buf: &[u8]) -> u64 {
+    let mut sites = 0u64;
+    let mut off = 0usize;
+    while buf.len() >= off + 4 {
+        let ver = be16(buf, off);
+        match ver {
+            5 | 7 => {
+                let rec = if ver == 5 { 48 } else { 52 };
+                let count = be16(buf, off + 2);
+                if buf.len() < off + 24 + rec * count {
+                    sites += 1;
+                    break;
+                }
+                off += 24 + rec * count;
+            }
+            9 | 10 => {
+                let (hdr, end) = if ver == 9 {
+                    (20, buf.len())
+                } else {
+                    let l = be16(buf, off + 2).max(16);
+                    (16, (off + l).min(buf.len()))
+                };
+                let mut pos = off + hdr;
+                let mut nsets = 0usize;
+                let max_sets = if ver == 9 { be16(buf, off + 2) } else { usize::MAX };
+                while pos + 4 <= end && nsets < max_sets {
+                    let id = be16(buf, pos);
+                    let len = be16(buf, pos + 2).max(4);
+                    if pos + len > end {
+                        break;
+                    }
+                    let body = &buf[pos + 4..pos + len];
+                    if ver == 9 && id == 0 {
+                        // every template record of the flowset is a count site; the first
+                        // over-announcing one ends the flowset
+                        let mut p = 0usize;
+                        while body.len() >= p + 4 {
+                            let fc = be16(body, p + 2);
+                            if 4 * fc > body.len() - p - 4 {
+                                sites += 1;
+                                break;
+                            }
+                            p += 4 + 4 * fc;
+                        }
+                    } else if ver == 9 && id == 1 {
+                        let mut p = 0usize;
+                        while body.len() >= p + 6 {
+                            let sl = be16(body, p + 2) / 4 * 4;
+                            let ol = be16(body, p + 4) / 4 * 4;
+                            if sl + ol > body.len() - p - 6 {
+                                sites += 2;
+                                break;
+                            }
+                            p += 6 + sl + ol;
+                        }
+                    } else if ver == 10 && id == 3 && body.len() >= 6 {
+                        let fc = be16(body, 2);
+                        if 4 * fc > body.len() - 6 {
+                            sites += 1;
+                        }
+                    }
+                    pos += len;
+                    nsets += 1;
+                }
+                if ver == 9 {
+                    off = pos;
+                } else {
+                    off = end;
+                }
+            }
+            _ => break,
+        }
+    }
+    sites
+}
 
 pub fn deliver(sim: &mut Sim, d: &Delivery) -> u64 {
-    let _ = (sim, d);
-    0
+    let pre = snap(&sim.parsers[d.p]);
+    // safety net: a runaway change must not take the machine down (cumulative 16 GiB per call)
+    alloc::start(16 << 30);
+    let called = call(&mut sim.parsers[d.p], d.buf);
+    let a = alloc::stop();
+    let r = match called {
+        Called::Ok(r) => r,
+        Called::Panic(m) => {
+            sim.find("ABANDON-panic", d.ev, format!("parse_bytes panicked (C01's business): {}", m));
+            return 3;
+        }
+    };
+    sim.fed[d.p].push(d.buf.to_vec());
+    sim.stats.oracle_evals += 1;
+    let post = snap(&sim.parsers[d.p]);
+    let b = d.buf.len() as u64;
+    let l = a.live.max(0) as u64;
+    let t: u64 = pre.values().chain(post.values()).map(|d| d.wire_size() as u64).sum();
+    let rem = remainder_copies(d.buf, &r);
+    let a_net = a.bytes.saturating_sub(rem);
+    let zero_len = pre.values().chain(post.values()).any(|d| d.has_zero_len());
+    sim.stats.max("A_minus_8L_over_B_x100", a_net.saturating_sub(8 * l) * 100 / (b + 1));
+    if !zero_len {
+        sim.stats.max("L_over_B_plus_T_x100", l * 100 / (b + t + 1));
+    }
+    sim.stats.max("largest_single_allocation", a.largest);
+    sim.stats.max("bytes_allocated_in_one_call", a.bytes);
+
+    let bound_a = 1024 * b + 8 * l + 256 * 1024;
+    if a.bytes > bound_a {
+        if a_net <= bound_a {
+            sim.find(
+                "KF-C15-remainder-copied-per-packet",
+                d.ev,
+                format!("{} bytes allocated for a {}-byte buffer of {} packets; {} of them are copies of the not yet parsed remainder made after every packet (quadratic in the number of packets)", a.bytes, b, r.len(), rem),
+            );
+        } else {
+            let sites = overannouncing_sites(d.buf);
+            if sites > 0 && a_net <= bound_a + sites * 66_000 {
+                sim.find(
+                    "KF-C15-count-preallocation",
+                    d.ev,
+                    format!("{} bytes allocated for a {}-byte buffer in which {} count fields announce more elements than the bytes present; each makes nom's count() pre-allocate up to 64 KiB", a.bytes, b, sites),
+                );
+            } else {
+                sim.find(
+                    "C15-allocation-not-bounded-by-input-plus-result",
+                    d.ev,
+                    format!("one parse_bytes call on {} bytes allocated {} bytes ({} after subtracting the listed per-packet remainder copies; {} over-announcing count sites) in {} allocations while the result and cache growth hold {} bytes; largest single allocation {}", b, a.bytes, a_net, sites, a.calls, l, a.largest),
+                );
+            }
+        }
+    }
+    if l > 1024 * (b + t) + 64 * 1024 {
+        if zero_len {
+            sim.find(
+                "KF-C15-zero-length-field-inflation",
+                d.ev,
+                format!("{} bytes of input (templates: {} wire bytes) yield {} bytes of result: a cached template has fields of declared length 0, every record materialises all of them", b, t, l),
+            );
+        } else {
+            sim.find("C15-result-not-bounded-by-bytes-received", d.ev, format!("one parse_bytes call on {} bytes (cached templates: {} wire bytes) retains {} bytes of result", b, t, l));
+        }
+    }
+    if a.largest > 64 * b + 2 * l + 4 * t + 80 * 1024 {
+        sim.find(
+            "C15-single-allocation-for-bytes-not-present",
+            d.ev,
+            format!("one parse_bytes call on {} bytes made a single allocation of {} bytes (result {} bytes, cached templates {} wire bytes)", b, a.largest, l, t),
+        );
+    }
+    for f in d.faults {
+        if let Some(rest) = f.strip_prefix("scale:") {
+            if let Some((fam, k)) = rest.rsplit_once(':') {
+                sim.scale_obs.push((fam.to_string(), k.parse().unwrap_or(0), a_net, a.calls, d.ev));
+            }
+        }
+    }
+    if b > 4096 || d.faults.iter().any(|f| f == "hostile") {
+        sim.stats.nontrivial = true;
+    }
+    if b > 16384 {
+        sim.stats.probe("call_over_16KiB");
+    }
+    if sim.stats.deliveries > 1 && t > 0 {
+        sim.stats.probe("call_with_cached_templates");
+    }
+    let mut dg = crate::rng::Digest::default();
+    for el in &r {
+        dg.str(&dbg(el));
+    }
+    dg.u64(a.bytes);
+    dg.u64(a.calls);
+    sim.last_outcome = dg.finish().to_le_bytes().to_vec();
+    if r.is_empty() {
+        2
+    } else {
+        0
+    }
 }
-pub fn finish(_sim: &mut Sim, _trace: &Trace) {}
+
+pub fn finish(sim: &mut Sim, _trace: &Trace) {
+    let obs = std::mem::take(&mut sim.scale_obs);
+    let fams: std::collections::BTreeSet<String> = obs.iter().map(|o| o.0.clone()).collect();
+    for fam in fams {
+        let get = |k: usize| obs.iter().find(|o| o.0 == fam && o.1 == k);
+        let (Some(a), Some(c)) = (get(0), get(2)) else { continue };
+        sim.stats.probe("scaling_triples_judged");
+        sim.stats.max(&format!("growth_x100_bytes_{}", fam), c.2 * 100 / (a.2 + 1));
+        // linear cost => factor 4 between n and 4n; quadratic => 16
+        if c.2 > 10 * a.2 + 128 * 1024 {
+            let code = if fam.starts_with("scale_packed_") { "C15-superlinear-in-packets" } else { "C15-superlinear-in-records-or-sets" };
+            sim.find(code, c.4, format!("family {}: allocation grows from {} bytes at size n to {} bytes at size 4n (linear would be 4x; remainder copies already subtracted)", fam, a.2, c.2));
+        }
+        if c.3 > 10 * a.3 + 256 {
+            sim.find("C15-superlinear-allocation-count", c.4, format!("family {}: allocation calls grow from {} at size n to {} at size 4n", fam, a.3, c.3));
+        }
+    }
+}
